@@ -52,6 +52,24 @@ func main() {
 			bodies[g] = func() { r.RunShard(g, 0, nil) }
 		}
 	}
+	// SIS keys and Vortex parameters as shared objects (fresh worker process per object family)
+	for _, o := range sisObjects() {
+		o := o
+		g := "H/" + o.name
+		if sh := r.Shard(); sh != "" {
+			if sh == g {
+				depth := 2
+				if r.Thorough() {
+					depth = 3
+				}
+				runShared(r, g, o, depth)
+				r.Finish()
+			}
+			continue
+		}
+		names = append(names, g)
+		bodies[g] = func() { r.RunShard(g, 0, nil) }
+	}
 	if r.Shard() != "" {
 		r.Harness("unknown shard " + r.Shard())
 	}
